@@ -8,7 +8,8 @@
 (***************************************************************************)
 EXTENDS DiskImage
 
-CONSTANTS EntrySizes, MaxBatch, MaxEntries, MaxCrashes
+CONSTANTS EntrySizes, MaxBatch, MaxEntries, MaxCrashes,
+          MaxFaults       \* device faults (C03): 0 in the C04 / C07 configurations
 
 VARIABLES
     img,        \* [Blocks -> [0..BP-1 -> page]]
@@ -20,15 +21,16 @@ VARIABLES
     stored,     \* [Keys -> SUBSET Nat] versions ever submitted for the key
     acked,      \* [Keys -> Nat] latest version whose flush was acknowledged
     written,    \* Seq([h, seq, k, v, b, o, len]) entries whose data and index writes were issued
-    crashes
+    crashes,
+    faults      \* number of device faults injected so far
 
-vars == <<img, ctx, cur, pending, batch, nv, stored, acked, written, crashes>>
+vars == <<img, ctx, cur, pending, batch, nv, stored, acked, written, crashes, faults>>
 
 Init ==
     /\ img = [b \in Blocks |-> [p \in 0 .. BP - 1 |-> Zero]]
     /\ ctx = Ctx0 /\ cur = 0 /\ pending = <<>> /\ batch = <<>> /\ nv = 0
     /\ stored = [k \in Keys |-> {}] /\ acked = [k \in Keys |-> 0]
-    /\ written = <<>> /\ crashes = 0
+    /\ written = <<>> /\ crashes = 0 /\ faults = 0
 
 RECURSIVE Assign(_, _, _)
 \* give every write of a layout its block: the current one, then the following ones
@@ -69,7 +71,7 @@ Submit ==
           /\ ctx' = lay.ctx /\ cur' = asg.b /\ nv' = nv + n
           /\ stored' = [k \in Keys |-> stored[k] \cup {es[i].v : i \in {i \in DOMAIN es : es[i].k = k}}]
           /\ written' = written \o AddrsOf(asg.ws, es)
-    /\ UNCHANGED <<img, acked, crashes>>
+    /\ UNCHANGED <<img, acked, crashes, faults>>
 
 Complete ==
     /\ pending # <<>>
@@ -82,7 +84,7 @@ Complete ==
                            IF vs = {} THEN acked[k] ELSE CHOOSE m \in vs : \A x \in vs : x <= m]
                    ELSE acked
        /\ batch' = IF Len(pending) = 1 THEN <<>> ELSE batch
-    /\ UNCHANGED <<ctx, cur, nv, stored, written, crashes>>
+    /\ UNCHANGED <<ctx, cur, nv, stored, written, crashes, faults>>
 
 \* first t pages of the write in flight reach the device
 Torn(im, t) == IF pending = <<>> \/ t = 0 THEN im
@@ -105,9 +107,24 @@ Crash ==
     /\ pending' = <<>> /\ batch' = <<>> /\ ctx' = Ctx0
     /\ nv' = IF MaxSeqOf(img', {}) > nv THEN MaxSeqOf(img', {}) ELSE nv
     /\ crashes' = crashes + 1
-    /\ UNCHANGED <<stored, acked>>
+    /\ UNCHANGED <<stored, acked, faults>>
 
-Next == Submit \/ Complete \/ Crash
+\* C03: the device returns something else for one page: zeroes, garbage, the content of another page (same or
+\* other block: misdirected / swapped), or - since every page value the run ever wrote is still somewhere in
+\* the reachable images of this model - an older generation is covered by the copy case of the blob index page.
+\* Assumption of the protection model: a checksummed region that changed fails its checksum (a damaged index
+\* or entry page reads as "raw"); a page moved as a whole keeps its checksums.
+Fault ==
+    /\ faults < MaxFaults /\ pending = <<>>
+    /\ \E b \in Blocks, p \in 0 .. BP - 1 :
+          \/ img' = [img EXCEPT ![b][p] = Zero]
+          \/ img' = [img EXCEPT ![b][p] = Raw]
+          \/ \E b2 \in Blocks, p2 \in 0 .. BP - 1 : img' = [img EXCEPT ![b][p] = img[b2][p2]]
+          \/ \E b2 \in Blocks, p2 \in 0 .. BP - 1 : img' = [img EXCEPT ![b][p] = img[b2][p2], ![b2][p2] = img[b][p]]
+    /\ faults' = faults + 1
+    /\ UNCHANGED <<ctx, cur, pending, batch, nv, stored, acked, written, crashes>>
+
+Next == Submit \/ Complete \/ Crash \/ Fault
 Spec == Init /\ [][Next]_vars
 
 -------------------------------------------------------------------------------
@@ -148,6 +165,9 @@ IndexAddressesLoadable ==
     pending = <<>> =>
         \A i \in DOMAIN written :
             LET e == EntryAt(img, written[i]) IN e.ok /\ e.k = written[i].k /\ e.v = written[i].v
+
+\* C03 at image level: whatever the faults, recovery is total and every lookup is a stored value of the key or a miss
+FaultInv == RecoveredValuesWereStored
 
 Inv == RecoveredValuesWereStored /\ AckedNotOlder /\ PostRestartSupersedes /\ InsideOneBlock /\ NoOverlap
        /\ ScanReconstructsWritten /\ IndexAddressesLoadable
